@@ -13,11 +13,16 @@
  *     https://opensource.org/licenses/BSD-3-Clause
  */
 
+#define _GNU_SOURCE /* asprintf */
+
 #include <assert.h>
+#include <inttypes.h>
 #include <stdint.h>
+#include <stdio.h>
 #include <stdlib.h>
 #include <string.h>
 
+#include "compat.h"
 #include "context.h"
 #include "dict.h"
 #include "log.h"
@@ -62,7 +67,10 @@ struct xmlpr_ctx {
 static const char *
 xml_print_ns(struct xmlpr_ctx *pctx, const char *ns, const char *new_prefix, uint32_t prefix_opts)
 {
-    uint32_t i;
+    uint32_t i, n = 0;
+    const char *suggested = new_prefix;
+    char *uniq_prefix = NULL;
+    LY_ERR r;
 
     for (i = pctx->ns.count; i > 0; --i) {
         if (!new_prefix) {
@@ -92,11 +100,27 @@ xml_print_ns(struct xmlpr_ctx *pctx, const char *ns, const char *new_prefix, uin
     }
 
     /* suitable namespace not found, must be printed */
+    if (new_prefix && !(prefix_opts & LYXML_PREFIX_REQUIRED)) {
+        /* the suggested prefix must not be bound to another namespace in the scope, make it unique */
+        i = 0;
+        while (i < pctx->ns.count) {
+            if (pctx->prefix.objs[i] && !strcmp(pctx->prefix.objs[i], new_prefix)) {
+                free(uniq_prefix);
+                LY_CHECK_RET(asprintf(&uniq_prefix, "%s%" PRIu32, suggested, ++n) == -1, NULL);
+                new_prefix = uniq_prefix;
+                i = 0;
+            } else {
+                ++i;
+            }
+        }
+    }
     ly_print_(pctx->out, " xmlns%s%s=\"%s\"", new_prefix ? ":" : "", new_prefix ? new_prefix : "", ns);
 
     /* and added into namespaces */
     if (new_prefix) {
-        LY_CHECK_RET(lydict_insert(pctx->ctx, new_prefix, 0, &new_prefix), NULL);
+        r = lydict_insert(pctx->ctx, new_prefix, 0, &new_prefix);
+        free(uniq_prefix);
+        LY_CHECK_RET(r, NULL);
     }
     LY_CHECK_RET(ly_set_add(&pctx->prefix, (void *)new_prefix, 1, NULL), NULL);
     LY_CHECK_RET(ly_set_add(&pctx->ns, (void *)ns, 1, &i), NULL);
@@ -232,8 +256,8 @@ xml_print_meta(struct xmlpr_ctx *pctx, const struct lyd_node *node)
             /* print special NETCONF filter unqualified attributes */
             ly_print_(pctx->out, " %s=\"", meta->name);
         } else {
-            /* print the metadata with its namespace */
-            ly_print_(pctx->out, " %s:%s=\"", xml_print_ns(pctx, mod->ns, mod->prefix, 1), meta->name);
+            /* print the metadata with its namespace, any prefix of the namespace will do */
+            ly_print_(pctx->out, " %s:%s=\"", xml_print_ns(pctx, mod->ns, mod->prefix, 0), meta->name);
         }
 
         /* print metadata value */
